@@ -38,6 +38,7 @@ TARGETS = [
     ("chipfiring/CFDivisor.py", "CFDivisor", "lending_move"), ("chipfiring/CFDivisor.py", "CFDivisor", "borrowing_move"),
     ("chipfiring/CFDivisor.py", "CFDivisor", "chip_transfer"), ("chipfiring/CFDivisor.py", "CFDivisor", "set_fire"),
     ("chipfiring/CFGraph.py", "CFGraph", "is_loopless"), ("chipfiring/CFGraph.py", "CFGraph", "get_valence"), ("chipfiring/CFGraph.py", "CFGraph", "add_edge"),
+    ("chipfiring/CFGraph.py", "CFGraph", "add_edges"),
     ("chipfiring/CFiringScript.py", "CFiringScript", "get_firings"), ("chipfiring/CFiringScript.py", "CFiringScript", "set_firings"),
     ("chipfiring/CFiringScript.py", "CFiringScript", "update_firings"),
     ("chipfiring/CFConfig.py", "CFConfig", "get_out_degree_S"),
@@ -45,13 +46,14 @@ TARGETS = [
 ]
 class Unsupported(Exception): pass
 def bad(node, why=""): raise Unsupported("%s at line %s: %s" % (type(node).__name__, getattr(node, "lineno", "?"), why))
-COQTY = {"key": "nat", "Z": "Z", "bool": "bool", "dictZ": "dictZ", "dictD": "dictD", "set": "list nat"}
+COQTY = {"key": "nat", "Z": "Z", "bool": "bool", "dictZ": "dictZ", "dictD": "dictD", "set": "list nat", "edges": "list (nat * nat * Z)"}
 def ann_type(a):
     s = ast.unparse(a)
     if s == "int": return "Z"
     if s == "str": return "key"
     if s == "bool": return "bool"
     if s == "Vertex": return "key"
+    if s in ("typing.List[typing.Tuple[str, str, int]]", "List[Tuple[str, str, int]]"): return "edges"
     if s == "OrientationState": return "Z"
     if s in ("Set[str]", "typing.Set[str]", "typing.Set[typing.str]"): return "set"
     raise Unsupported("annotation " + s)
@@ -61,6 +63,7 @@ class Fn:
     def __init__(self, node, cls):
         self.node = node; self.cls = cls; self.env = {}; self.params = []; self.tmp = 0; self.pending = []
         self.reads = []; self.writes = []; self.uses_order = False; self.rty = None; self.can_raise = False
+        self.bookkeeping = {"seen_edges", "edge"} if (cls, node.name) == ("CFGraph", "add_edges") else set()
     def fresh(self, p="t"): self.tmp += 1; return "%s%d_" % (p, self.tmp)
     def field(self, e, write=False):
         f = FIELDS[self.cls].get(ast.unparse(e))
@@ -183,7 +186,7 @@ class Fn:
                 while isinstance(t, ast.Subscript): t = t.value
                 if isinstance(t, ast.Attribute): tgt = FIELDS[self.cls].get(ast.unparse(t), (None,))[0]
             if isinstance(n, ast.AugAssign) and isinstance(n.target, ast.Name): tgt = n.target.id
-            if isinstance(n, ast.Call) and isinstance(n.func, ast.Attribute) and n.func.attr == "add" and isinstance(n.func.value, ast.Name): tgt = n.func.value.id
+            if isinstance(n, ast.Call) and isinstance(n.func, ast.Attribute) and n.func.attr == "add" and isinstance(n.func.value, ast.Name) and n.func.value.id not in self.bookkeeping: tgt = n.func.value.id
             if isinstance(n, ast.Call) and isinstance(n.func, ast.Attribute) and ast.unparse(n.func.value) == "self":
                 c = DONE.get((self.cls, n.func.attr))
                 for w in (c.writes if c else []):
@@ -197,6 +200,9 @@ class Fn:
             if td not in ("dictZ", "dictD") or not isinstance(target, ast.Tuple) or len(target.elts) != 2: bad(it, "items() form")
             ns = [x.id if x.id != "_" else self.fresh("u") for x in target.elts]
             return d, "let '(%s, %s) := kv_ in" % tuple(ns), {ns[0]: "key", ns[1]: ("Z" if td == "dictZ" else "dictZ")}, "kv_"
+        if isinstance(it, ast.Name) and self.env.get(it.id) == "edges" and isinstance(target, ast.Tuple) and len(target.elts) == 3 and all(isinstance(x, ast.Name) for x in target.elts):
+            ns = [x.id for x in target.elts]
+            return it.id, "let '(%s, %s, %s) := kv_ in" % tuple(ns), {ns[0]: "key", ns[1]: "key", ns[2]: "Z"}, "kv_"
         d, td = self.expr(it)
         if not isinstance(target, ast.Name): bad(it, "loop target")
         if td in ("dictZ", "dictD"): return "(d_keys %s)" % d, "", {target.id: "key"}, target.id
@@ -206,6 +212,18 @@ class Fn:
         if not ss: return k()
         s, rest = ss[0], ss[1:]; K = lambda: self.stmts(rest, k)
         if isinstance(s, ast.Expr) and isinstance(s.value, ast.Constant) and isinstance(s.value.value, str): return K()
+        # the duplicate-edge warning of add_edges: four exact statement shapes about two locals that nothing else may mention (checked in translate());
+        # they only feed warnings.warn, which under the default warning filters returns None (assumption: warnings are not turned into errors)
+        u = ast.unparse(s)
+        if isinstance(s, ast.Assign) and u.endswith("= set()") and isinstance(s.targets[0], ast.Name) and s.targets[0].id in self.bookkeeping: return K()
+        if isinstance(s, ast.Assign) and isinstance(s.targets[0], ast.Name) and s.targets[0].id in self.bookkeeping and isinstance(s.value, ast.Call) and ast.unparse(s.value.func) == "tuple" \
+                and len(s.value.args) == 1 and isinstance(s.value.args[0], ast.Call) and ast.unparse(s.value.args[0].func) == "sorted" and isinstance(s.value.args[0].args[0], ast.List) \
+                and all(isinstance(x, ast.Name) and self.env.get(x.id) == "key" for x in s.value.args[0].args[0].elts): return K()
+        if isinstance(s, ast.If) and not s.orelse and isinstance(s.test, ast.Compare) and isinstance(s.test.ops[0], ast.In) and isinstance(s.test.left, ast.Name) and s.test.left.id in self.bookkeeping \
+                and isinstance(s.test.comparators[0], ast.Name) and s.test.comparators[0].id in self.bookkeeping and len(s.body) == 1 and isinstance(s.body[0], ast.Expr) \
+                and isinstance(s.body[0].value, ast.Call) and ast.unparse(s.body[0].value.func) == "warnings.warn": return K()
+        if isinstance(s, ast.Expr) and isinstance(s.value, ast.Call) and isinstance(s.value.func, ast.Attribute) and s.value.func.attr == "add" and isinstance(s.value.func.value, ast.Name) \
+                and s.value.func.value.id in self.bookkeeping and len(s.value.args) == 1 and isinstance(s.value.args[0], ast.Name) and s.value.args[0].id in self.bookkeeping: return K()
         if isinstance(s, ast.Raise): self.can_raise = True; return "EXN_"
         if isinstance(s, ast.Return):
             if s.value is None: bad(s, "bare return")
@@ -357,6 +375,9 @@ class Fn:
             if a.arg == "self": continue
             if a.annotation is None: bad(a, "parameter without annotation")
             self.env[a.arg] = ann_type(a.annotation); self.params.append((a.arg, self.env[a.arg]))
+        if self.bookkeeping:
+            uses = [x for x in ast.walk(n) if isinstance(x, ast.Name) and x.id in self.bookkeeping]
+            if len(uses) != 6: bad(n, "the duplicate-edge bookkeeping locals are used in an unexpected way (%d mentions)" % len(uses))
         body = self.stmts(n.body, lambda: "END_")
         if self.rty is not None and "END_" in body: bad(n, "control can reach the end of a method that returns a value")
         opt = self.can_raise
